@@ -102,6 +102,9 @@ func (in *Interp) buildSliceInt(s *GenSpec) *rapid.Generator[[]int] {
 		return rapid.SliceOfN(in.buildInt(s.Sub), s.A, s.B)
 	case "distinct":
 		return rapid.SliceOfDistinct(rapid.IntRange(0, s.A), rapid.ID[int])
+	case "distinctn":
+		// a minimum length close to the size of the domain: frequent "too many rejections" (the draw gives up)
+		return rapid.SliceOfNDistinct(rapid.IntRange(0, s.A), s.B, s.B+2, rapid.ID[int])
 	case "perm":
 		sl := make([]int, s.A)
 		for i := range sl {
@@ -124,8 +127,10 @@ func (in *Interp) buildAny(s *GenSpec) drawFn {
 		return box(rapid.StringMatching(regexCatalogue[s.A]))
 	case "stringof":
 		return box(rapid.StringOf(rapid.RuneFrom([]rune{'a', 'b', 'c', 'é', '世'})))
-	case "sliceof", "slicen", "distinct", "perm":
+	case "sliceof", "slicen", "distinct", "distinctn", "perm":
 		return box(in.buildSliceInt(s))
+	case "mapofn":
+		return box(rapid.MapOfN(rapid.IntRange(0, s.A), in.buildInt(s.Sub), s.B, s.B+2))
 	case "slice2":
 		return box(rapid.SliceOf(in.buildSliceInt(s.Sub)))
 	case "mapof":
